@@ -2,6 +2,7 @@
 import os
 import vlib
 from props.common import run_vectors
+from props import udpflow
 
 
 def run(tier, v, wd, replay=None):
@@ -40,6 +41,8 @@ def run(tier, v, wd, replay=None):
     r = vlib.tlc(wd, "DnsKnowledge", "DnsKnowledge_gen.cfg", emit_to=kfile, simulate={"num": kn}, depth=10, workers=4, timeout=900, max_emit=kn)
     v.add_tlc(r)
     run_vectors(v, wd, repo, "./control/", "TestVerifC18Knowledge", kfile, tags="verif,dae_stub_ebpf", timeout=900, outname="out-know.json")
+    # UDP: whatever was sniffed, the target handed to the node stays the original destination (UdpFlow.tla on handlePkt)
+    udpflow.run("C18", tier, v, wd, repo)
     v.coverage["exhaustive"] = True
     v.assumptions += ["'resolved through dae' is injected as an unexpired DNS-knowledge entry, 'verified' through the real-domain set, 'negative' through the negative cache",
                       "rerouting in plain domain mode is not constrained (the property is silent; the code reroutes genuine names)",
